@@ -24,6 +24,15 @@ Theorem C15_generated_all_ok :
 Proof. exact gen_generated_ok. Qed.
 Print Assumptions C15_generated_all_ok.
 
+(* the broadcast path (client.broadcast_enable and unit 0: send, no receive) is one bracket too,
+   on its main path and over all its sites, and returns its own acknowledgement *)
+Theorem C15_generated_broadcast_ok :
+  well_bracketed broadcast_call_skeleton = true /\
+  well_bracketed (client_prefix ++ broadcast_allsites) = true /\
+  own_ok broadcast_call_skeleton.
+Proof. exact (conj (proj1 gen_broadcast_ok) (conj (proj2 gen_broadcast_ok) gen_broadcast_own_ok)). Qed.
+Print Assumptions C15_generated_broadcast_ok.
+
 (* at most one thread is between its send and the end of its receive — any threads, any calls,
    every schedule, re-entrant or not *)
 Theorem C15_mutex : forall re tid0 P σ t1 t2 th1 th2,
@@ -116,9 +125,10 @@ Theorem C15_needs_the_bracket :
 Proof. exact split_bracket_swaps_replies. Qed.
 Print Assumptions C15_needs_the_bracket.
 
-(* the hypotheses are satisfiable by the generated skeleton, for any thread / call counts *)
-Example C15_nonvacuous : forall calls,
-  wb_program (map (fun n => repeat call_skeleton n) calls) /\
-  good_program (map (fun n => repeat call_skeleton n) calls).
-Proof. intro calls. split; [apply wb_program_uniform; exact gen_call_ok|apply gen_good_program]. Qed.
+(* the hypotheses are satisfiable by the generated skeletons: any threads, any mix of unicast and
+   broadcast calls *)
+Example C15_nonvacuous : forall prog : list (list bool),
+  let P := map (map (fun b : bool => if b then broadcast_call_skeleton else call_skeleton)) prog in
+  wb_program P /\ good_program P.
+Proof. intro prog. split; [apply good_program_wb|]; apply gen_good_program_mixed. Qed.
 Print Assumptions C15_nonvacuous.
